@@ -1,4 +1,4 @@
-CONSTANTS Depth = 4 MaxSheets = 2 Pairing = "one" Family = "links" Wide = FALSE EmitReplay = FALSE
+CONSTANTS Depth = 4 MaxSheets = 2 Pairing = "one" Family = "links1" Wide = FALSE EmitReplay = FALSE
 SPECIFICATION MCSpec
 VIEW View
 INVARIANTS WellFormed HomedAfterLoad
